@@ -191,6 +191,21 @@ def run(ctx, rep):
 _unit_inv = {}
 
 
+def all_unit_form(c):
+    """'parsed' / 'raw' when the condition is `<variants>.iter().all(|v| matches!(v[.fields], <Unit pattern>))`, else None."""
+    if not (isinstance(c, dict) and c.get('k') == 'call' and c.get('f') == 'all' and c.get('args')):
+        return None
+    cl = c['args'][0]
+    body = vt.strip(cl.get('body')) if isinstance(cl, dict) and cl.get('k') == 'closure' else None
+    if not (isinstance(body, dict) and body.get('k') == 'matches' and not body.get('guard')):
+        return None
+    if body.get('variants') == ['RustEnumVariant::Unit']:
+        return 'parsed'
+    if body.get('variants') == ['Fields::Unit']:
+        return 'raw'
+    return None
+
+
 def unit_enum_invariant(ctx, prog, rep):
     if 'v' in _unit_inv:
         return _unit_inv['v']
@@ -210,10 +225,20 @@ def unit_enum_invariant(ctx, prog, rep):
         found = False
         for c in f['calls']:
             if c.get('f', '').replace(' ', '').endswith('RustEnum::Unit'):
-                gtxt = json.dumps(c['guard'])
                 found = True
-                if not ('"all"' in gtxt and 'RustEnumVariant::Unit' in gtxt):
-                    ok, why = False, 'construction of RustEnum::Unit is not guarded by variants.iter().all(matches!(.., RustEnumVariant::Unit(_)))'
+                forms = [all_unit_form(vt.strip(fr['c'])) for fr in c['guard'] if fr.get('k') == 'if' and not fr.get('neg')]
+                if 'parsed' in forms:
+                    continue
+                if 'raw' in forms:
+                    # the test is over the syn variants: sound iff the variant parser maps Fields::Unit to RustEnumVariant::Unit only
+                    pv = ctx.fn('parse_enum_variant', file='parser.rs')
+                    arms = [a for m in pv['matches'] for a in m['arms'] if a['variants'] == ['Fields::Unit']]
+                    good = arms and all('RustEnumVariant::Unit' in a['body'].replace(' ', '') and not re.search(r'RustEnumVariant::(?!Unit)', a['body'].replace(' ', '')) for a in arms)
+                    if good:
+                        continue
+                    ok, why = False, 'RustEnum::Unit is guarded by an all-Fields::Unit test over the syn variants, but parse_enum_variant does not map Fields::Unit to RustEnumVariant::Unit only'
+                    continue
+                ok, why = False, 'construction of RustEnum::Unit is not guarded by a test that every variant is a unit variant (`.all(matches!(.., RustEnumVariant::Unit(_)))` or the same over the syn fields)'
         if not found:
             ok, why = False, 'RustEnum::Unit(..) construction not found in parse_enum (astq)'
     rep.check(ok, 'P3', 'unit-enum-invariant', 'RustEnum::Unit constructed only in parse_enum under the all-unit test', why)
